@@ -122,7 +122,8 @@ def main():
     dest = os.path.join(VERIF, 'seeded', sid)
     os.makedirs(dest, exist_ok=True)
     for f in ('patch.diff', 'demo.py'):
-        shutil.copy(os.path.join(outdir, f), os.path.join(dest, f))
+        if os.path.abspath(os.path.join(outdir, f)) != os.path.abspath(os.path.join(dest, f)):
+            shutil.copy(os.path.join(outdir, f), os.path.join(dest, f))
     meta['what_we_ran'] = res
     meta['detected_by'] = [c for c, r in res['checks'].items() if isinstance(r, dict) and r.get('exit') == 1]
     with open(os.path.join(dest, 'meta.json'), 'w') as fh:
